@@ -139,8 +139,40 @@ def check_unbind():
     return None
 
 
+def check_send_reject():
+    """native: the REAL ACSE.send_reject on a stub association, for every (result, source, reason) in 0..8 x 0..4 x 0..8"""
+    import types
+    from pynetdicom.acse import ACSE
+    table = {1: (1, 2, 3, 7), 2: (1, 2), 3: (1, 2)}
+    for result in range(0, 4):
+        for source in range(0, 5):
+            for reason in range(0, 9):
+                sent = []
+                acceptor = types.SimpleNamespace(primitive=None)
+                assoc = types.SimpleNamespace(acceptor=acceptor, dul=types.SimpleNamespace(send_pdu=sent.append), is_rejected=False, is_established=None)
+                acse = ACSE(assoc)
+                legal = result in (1, 2) and reason in table.get(source, ())
+                try:
+                    acse.send_reject(result, source, reason)
+                    got = [(p.result, p.result_source, p.diagnostic) for p in sent] + [assoc.is_rejected, assoc.is_established]
+                except ValueError:
+                    got = ["ValueError"] + [len(sent), assoc.is_rejected, assoc.is_established]
+                except Exception as e:
+                    got = [repr(e)]
+                want = [(result, source, reason), True, False] if legal else ["ValueError", 0, False, None]
+                if got != want:
+                    return dict(input={"send_reject(result, source, diagnostic)": [result, source, reason]}, observed=got, expected=want)
+    return None
+
+
 def main():
     rec = load() if len(sys.argv) > 1 and sys.argv[1] != "--all" else {"id": "all"}
+    if "ACSE.send_reject" in rec.get("id", "") or rec.get("id", "").endswith("cross-check") or rec.get("id") == "all":
+        bad = check_send_reject()
+        if bad:
+            done(True, **bad)
+        if "ACSE.send_reject" in rec.get("id", ""):
+            done(False, note="the real send_reject sends exactly the PS3.8 triples it is given and refuses the others")
     if "_remove_handler" in rec.get("id", "") or rec.get("id", "").endswith("cross-check") or rec.get("id") == "all":
         bad = check_unbind()
         if bad:
